@@ -28,7 +28,7 @@ PROPS['C08'] = dict(
 GEN = [('generic', 120, 30)]
 PROPS['C02'] = dict(
     props_file='Props/C02.v',
-    kernels=['cs_has_available_charger', 'cs_increment_available', 'cs_decrement_available', 'cs_increment_enqueued', 'cs_decrement_enqueued',
+    kernels=['cs_has_available_charger', 'cs_increment_available', 'cs_decrement_available', 'cs_increment_enqueued', 'cs_decrement_enqueued', 'cs_add_chargers',
              'base_has_available_stall', 'base_checkout_stall', 'base_return_stall'],
     step_runs={Q: GEN + [('contention', 80, 40), ('plugs', 80, 40)], T: [('generic', 1500, 40), ('contention', 1500, 60), ('plugs', 1500, 60)]},
     known_keys={},
@@ -160,6 +160,8 @@ import eng_c19
 PROPS['C19'].update(engines=[eng_c19.engine], extended=[eng_c19.engine], replayers=[eng_c19.replayer])
 
 import eng_c20
+import eng_c02
+PROPS['C02'].update(engines=[eng_c02.engine], extended=[eng_c02.engine], replayers=[eng_c02.replayer])
 PROPS['C20'].setdefault('engines', []).append(eng_c20.engine)
 PROPS['C20'].setdefault('extended', []).append(eng_c20.engine)
 PROPS['C20'].setdefault('replayers', []).append(eng_c20.replayer)
